@@ -171,6 +171,7 @@ type Rec struct {
 	Env     *Env
 	Depth   int
 	Stack   []*ast.CallExpr // inlining call stack (call sites of closures/helpers leading here)
+	InDefer bool            // the construct is (inside) a deferred call of its function
 }
 
 // SubSite is a call of Observable.Subscribe[WithContext] / Connect[WithContext].
@@ -299,6 +300,7 @@ type frame struct {
 	via     []string
 	fnNode  ast.Node // function being walked (for return handling)
 	stack   []*ast.CallExpr
+	inDefer bool
 }
 
 type walker struct {
@@ -372,7 +374,7 @@ func (w *walker) rec(n ast.Node, fr frame) Rec {
 	if !fr.inlined {
 		bp = n.Pos()
 	}
-	return Rec{SC: w.sc, Pkg: fr.env.Pkg, Ctx: fr.ctx, Slot: fr.slot, Pos: n.Pos(), BasePos: bp, InLoop: fr.loop > 0, Env: fr.env, Depth: fr.depth, Stack: fr.stack}
+	return Rec{SC: w.sc, Pkg: fr.env.Pkg, Ctx: fr.ctx, Slot: fr.slot, Pos: n.Pos(), BasePos: bp, InLoop: fr.loop > 0, Env: fr.env, Depth: fr.depth, Stack: fr.stack, InDefer: fr.inDefer}
 }
 
 func children(n ast.Node, f func(ast.Node)) {
@@ -428,7 +430,9 @@ func (w *walker) node(n ast.Node, fr frame) {
 	case *ast.GoStmt:
 		w.goStmt(x, fr)
 	case *ast.DeferStmt:
-		w.call(x.Call, fr, true)
+		f2 := fr
+		f2.inDefer = true
+		w.call(x.Call, f2, true)
 	case *ast.ReturnStmt:
 		w.ret(x, fr)
 	case *ast.CallExpr:
